@@ -35,7 +35,7 @@ def main(tier):
     # inserted at every position of every history of length <= 1; quick: 9 sweeps (bisected on anomaly), thorough: + every
     # single getter; under ASan: all getters at once
     qf = c.run_family('plain', 'c12', 'query', env=env, chunk=9 if quick else 41, per_case_timeout=60)
-    c.run_family('asan', 'c12', 'query_asan', env=env_asan, chunk=2, per_case_timeout=120)
+    c.run_family('asan', 'c12', 'query_asan', env=env_asan, hi=28, chunk=2, per_case_timeout=120)  # positions 'alone' and 'after the op' (1 + 27)
 
     harness = [v for v in c.raw if v['sig'].startswith('HARNESS:')]
     c.raw = [v for v in c.raw if not v['sig'].startswith('HARNESS:')]
@@ -64,7 +64,7 @@ def main(tier):
             'a service probe whose ARGUMENT differs from the fresh one (it came out of an earlier, already judged, call of the history) is judged in the counterfactual world only',
             'Importer::resolveImports and Annotator::assignAllIds mutate their model by contract: no frame condition is judged for them; the annotator probe works on a private model with a fresh Annotator',
             'twin family: alphabet of 32 operations = 16 service/parser calls on a document and on its conflicting twin (every name kept, every meaning changed: units definitions, variable units and initial values, moved ids, import references and imported file content, numbers in the math); histories of length <= %d over it, each in two modes (caller keeps / destroys all models and results after each history op), each followed by all 32 operations; the Importer library is documented instance state and is not part of the resolve observation' % twinlen,
-            'query family: 73 getters/lookups in 9 groups (Importer library by key / by index, Logger getters of all 7 loggers, Annotator lookups known / unknown-wrong-kind-out-of-range / enumerations, Analyser getters and external-variable lookups, Generator getters and repeated code, strict flags) on a world with a long-lived Annotator holding a model and one registered external variable; a history with a query inserted (before the op, after the op, alone) must be followed by exactly the probe observations, findings, crashes AND instance state (importer library with keys, every issue list, external variables, analyser/generator models, annotator ids) of the history without it; the query Annotator\'s own issue list is the documented result channel of its lookups and is excluded',
+            'query family: 72 getters/lookups in 9 groups (Importer library by key / by index, Logger getters of all 7 loggers, Annotator lookups known / unknown-wrong-kind-out-of-range / enumerations, Analyser getters and external-variable lookups, Generator getters and repeated code, strict flags) on a world with a long-lived Annotator holding a model and one registered external variable; a history with a query inserted (before the op, after the op, alone) must be followed by exactly the probe observations, findings, crashes AND instance state (importer library with keys, every issue list, external variables, analyser/generator models, annotator ids) of the history without it; the query Annotator\'s own issue list is the documented result channel of its lookups and is excluded',
             'generate probes (C, Python, C with power operator) all work on ONE AnalyserModel per world, obtained from an own Analyser and held; its dump includes every equation AST with the parent-link consistency of every node',
             'the asan sub-families cover histories of length <= 1 only (twin family: the destroying mode only)',
         ],
